@@ -171,7 +171,7 @@ class VCGen:
         cnt = s.cur['_names'].get(name, 0)
         s.cur['_names'][name] = cnt + 1
         nm = f"{s.cur['name']}/{name}" + (f"~{cnt}" if cnt else "")
-        s.obligs.append(Oblig(nm, list(st.pc), goal, s.cur['name'], line, kind, extra, s.cur.get('opaque', ())))
+        s.obligs.append(Oblig(nm, list(st.pc), goal, s.cur['name'], line, kind, extra, tuple(s.cur.get('opaque', ())) + (tuple(s.cur.get('opaque_post', ())) if kind in ('post', 'frame', 'raises') else ())))
 
     def safe(s, st, what, goal, line):
         if s.specmode:
@@ -277,7 +277,7 @@ class VCGen:
             return Length(v) != 0
         if t.k == 'opt':
             inner = t.a[0]
-            S = sort(t)
+            S = Ty.S(t)
             if inner.k == 'list':
                 return And(Not(S.isnone(v)), L_len(S.val(v), inner) != 0)
             if inner == INT:
@@ -310,7 +310,7 @@ class VCGen:
             for i, ti in enumerate(t.a):
                 out += s.wf_facts(tup_get(v, t, i), ti, depth + 1)
         elif t.k == 'opt':
-            out += s.wf_facts(sort(t).val(v), t.a[0], depth + 1)
+            out += s.wf_facts(Ty.S(t).val(v), t.a[0], depth + 1)
         elif t.k == 'arr':
             k = Const(f'k!w{next(Ty._fresh)}', sort(t.a[0]))
             inner = s.wf_facts(v[k], t.a[1], depth + 1)
@@ -318,7 +318,7 @@ class VCGen:
                 out.append(ForAll([k], And(*inner)))
         elif t.k == 'dict':
             k = Const(f'k!w{next(Ty._fresh)}', sort(t.a[0]))
-            inner = s.wf_facts(sort(t).val(v)[k], t.a[1], depth + 1)
+            inner = s.wf_facts(Ty.S(t).val(v)[k], t.a[1], depth + 1)
             if inner:
                 out.append(ForAll([k], And(*inner)))
         return out
@@ -431,7 +431,7 @@ class VCGen:
                 s.safe(st, 'index>=0', i >= 0, e.lineno)
             return L_arr(lv, lt)[i], lt.a[0]
         if t.k == 'dict':
-            S = sort(t)
+            S = Ty.S(t)
             if not s.specmode:
                 s.safe(st, 'key', S.has(b)[i], e.lineno)
             return S.val(b)[i], t.a[1]
@@ -539,9 +539,9 @@ class VCGen:
                 lv, lt = s.deref(b, tb, st)
                 r = s.member(a, ta, lv, lt)
             elif tb.k == 'dict':
-                r = sort(tb).has(b)[a]
+                r = Ty.S(tb).has(b)[a]
             elif tb.k == 'opt' and tb.a[0].k == 'list':
-                S = sort(tb)
+                S = Ty.S(tb)
                 if not s.specmode:
                     s.safe(st, 'in-None', Not(S.isnone(b)), line)
                 r = s.member(a, ta, S.val(b), tb.a[0])
@@ -550,7 +550,7 @@ class VCGen:
             return Not(r) if isinstance(op, ast.NotIn) else r
         if isinstance(op, (ast.Is, ast.IsNot)):
             if tb == NONE and ta.k == 'opt':
-                r = sort(ta).isnone(a)
+                r = Ty.S(ta).isnone(a)
             elif tb == NONE and ta == NONE:
                 r = BoolVal(True)
             elif tb == NONE:
@@ -570,7 +570,7 @@ class VCGen:
             elif s.specmode and {ta.k, tb.k} <= {'ref', 'lref', 'int'}:
                 r = a == b          # references are integers in the encoding; contracts may quantify over them
             elif ta.k == 'opt' and tb == NONE:
-                r = sort(ta).isnone(a)
+                r = Ty.S(ta).isnone(a)
             elif ta.k in ('list', 'lref') and tb.k in ('list', 'lref'):
                 la, lta = s.deref(a, ta, st)
                 lb, ltb = s.deref(b, tb, st)
@@ -578,7 +578,10 @@ class VCGen:
             else:
                 raise Unsupported(f'== between {ta} and {tb}')
             return Not(r) if isinstance(op, ast.NotEq) else r
-        a2, b2, t = s.num2(a, ta, b, tb)
+        if s.specmode and {ta.k, tb.k} <= {'ref', 'lref', 'int'}:
+            a2, b2, t = a, b, INT       # references are integers; contracts compare them with allocation counters
+        else:
+            a2, b2, t = s.num2(a, ta, b, tb)
         if t not in (INT, REAL):
             raise Unsupported(f'ordering on {t}')
         return {ast.Lt: lambda: a2 < b2, ast.LtE: lambda: a2 <= b2, ast.Gt: lambda: a2 > b2, ast.GtE: lambda: a2 >= b2}[type(op)]()
@@ -610,6 +613,14 @@ class VCGen:
         a, ta = s.ev(e.left, st)
         res = []
         for op, c in zip(e.ops, e.comparators):
+            if isinstance(op, (ast.In, ast.NotIn)) and isinstance(c, (ast.List, ast.Tuple)) and len(e.ops) == 1:
+                # membership in a literal: a plain disjunction of equalities
+                alts = []
+                for el in c.elts:
+                    b, tb = s.ev(el, st)
+                    alts.append(s.cmp(ast.Eq(), a, ta, b, tb, st, e.lineno))
+                r = Or(*alts) if alts else BoolVal(False)
+                return (Not(r) if isinstance(op, ast.NotIn) else r), BOOL
             b, tb = s.ev(c, st)
             s.pol = outer_pol if len(e.ops) == 1 and isinstance(op, ast.Eq) and ta.k in ('list', 'lref') else 0
             res.append(s.cmp(op, a, ta, b, tb, st, e.lineno))
@@ -768,6 +779,8 @@ class VCGen:
                     return s.eqlist(a, ta, b, tb), BOOL
                 if nm == 'lcontent':       # the list value behind a reference
                     a, ta = s.ev(e.args[0], st)
+                    if ta == INT:          # a quantified reference: the heap of transition lists
+                        ta = LREF(TRANS)
                     return s.deref(a, ta, st)
                 if nm == 'store':
                     a, t = s.ev(e.args[0], st)
@@ -800,10 +813,10 @@ class VCGen:
                     return t_tgt(a), INT
                 if nm == 'isnone':
                     a, ta = s.ev(e.args[0], st)
-                    return sort(ta).isnone(a), BOOL
+                    return Ty.S(ta).isnone(a), BOOL
                 if nm == 'some':
                     a, ta = s.ev(e.args[0], st)
-                    return sort(ta).val(a), ta.a[0]
+                    return Ty.S(ta).val(a), ta.a[0]
                 if nm == 'cls':
                     a, _ = s.ev(e.args[0], st)
                     return st.heap['__class__'][a], INT
@@ -814,11 +827,11 @@ class VCGen:
                 if nm == 'has':
                     d, td = s.ev(e.args[0], st)
                     k, _ = s.ev(e.args[1], st)
-                    return sort(td).has(d)[k], BOOL
+                    return Ty.S(td).has(d)[k], BOOL
                 if nm == 'dval':
                     d, td = s.ev(e.args[0], st)
                     k, _ = s.ev(e.args[1], st)
-                    return sort(td).val(d)[k], td.a[1]
+                    return Ty.S(td).val(d)[k], td.a[1]
                 if nm in LEMMAS:
                     vs = [s.ev(a, st)[0] for a in e.args]
                     return LEMMAS[nm](*vs), BOOL
@@ -888,7 +901,7 @@ class VCGen:
         if t == STR:
             return Length(v), INT
         if t.k == 'opt' and t.a[0].k == 'list':
-            S = sort(t)
+            S = Ty.S(t)
             s.safe(st, 'len-None', Not(S.isnone(v)), e.lineno)
             return L_len(S.val(v), t.a[0]), INT
         if t.k not in ('list', 'lref'):
@@ -962,7 +975,16 @@ class VCGen:
         return s._minmax(e, st, False)
 
     def bi_set(s, e, st):
-        raise Unsupported('set()')
+        """set(list of ints): encoded as its membership predicate (an array Int -> Bool); == is extensional"""
+        v, t = s.ev(e.args[0], st)
+        lv, lt = s.deref(v, t, st)
+        if lt.k != 'list' or lt.a[0] != INT:
+            raise Unsupported('set() of a non-int list')
+        r = fresh('set', ARR(INT, BOOL))
+        x = Int(f'x!s{next(Ty._fresh)}')
+        k = Int(f'k!s{next(Ty._fresh)}')
+        st.pc.append(ForAll([x], r[x] == Exists([k], And(0 <= k, k < L_len(lv, lt), L_arr(lv, lt)[k] == x))))
+        return r, ARR(INT, BOOL)
 
     def bi_range(s, e, st):
         raise Unsupported('range outside for')
@@ -1010,7 +1032,7 @@ class VCGen:
                         return bv
                     return L_mk(bt, Store(L_arr(bv, bt), i, fn(L_arr(bv, bt)[i], et)), n)
                 if bt.k == 'dict':
-                    S = sort(bt)
+                    S = Ty.S(bt)
                     s.safe(st, 'key', S.has(bv)[i], line)
                     return S.mk(S.has(bv), Store(S.val(bv), i, fn(S.val(bv)[i], bt.a[1])))
                 raise Unsupported(f'nested mutation through {bt}')
@@ -1026,7 +1048,12 @@ class VCGen:
             xv = s.coerce(x, tx, et)[0] if (x is not None or et.k in ('list', 'opt')) else None
             if x is None:
                 xv = empty(et)
-            return L_app(lv, lt, xv)
+            new = L_app(lv, lt, xv)
+            # a valid fact about append, stated with a trigger on the OLD list's elements so that witnesses found in the
+            # old list are also recognised in the new one (E-matching would otherwise have no term new[m] to match)
+            m = Int(f'm!a{next(Ty._fresh)}')
+            st.pc.append(ForAll([m], Implies(And(0 <= m, m < L_len(lv, lt)), L_arr(new, lt)[m] == L_arr(lv, lt)[m]), patterns=[L_arr(lv, lt)[m]]))
+            return new
         s.mutate_list(e.func.value, st, fn, e.lineno)
         return BoolVal(False), NONE
 
@@ -1188,7 +1215,7 @@ class VCGen:
                 assign_target(target, L_arr(state.lheap[e0][v], LIST(e0))[i], e0, state)
             return dict(count=cnt_dyn(st), bind=bind, dyn=cnt_dyn)
         if t.k == 'opt' and t.a[0].k == 'list':
-            S = sort(t)
+            S = Ty.S(t)
             s.safe(st, 'iter-None', Not(S.isnone(v)), it.lineno)
             v, t = S.val(v), t.a[0]
         if t.k != 'list':
@@ -1258,7 +1285,7 @@ class VCGen:
                     s.safe(st, 'store-index>=0', i >= 0, line)
                     return L_mk(bt, Store(L_arr(bv, bt), i, s.coerce(v, t, bt.a[0])[0]), n)
                 if bt.k == 'dict':
-                    S = sort(bt)
+                    S = Ty.S(bt)
                     xv = s.coerce(v, t, bt.a[1])[0]
                     return S.mk(Store(S.has(bv), i, BoolVal(True)), Store(S.val(bv), i, xv))
                 raise Unsupported(f'subscript store into {bt}')
@@ -1354,8 +1381,14 @@ class VCGen:
         if rt is not None:
             v, t = s.coerce(v, t, rt)
         st.env['result'] = (v, t)
+        up = c.get('use_post', {})
         for k, post in enumerate(c['ensures']):
-            s.oblige(st, f'post#{k}', s.spec_eval(post, st, 1), line, 'post', extra=c.get('use_post', []))
+            extra = []
+            for u in (up.get(k, []) + up.get('all', []) if isinstance(up, dict) else up):     # lemma instances for this clause
+                t2 = st.clone()
+                s.use_lemma(t2, u)
+                extra += t2.pc[len(st.pc):]
+            s.oblige(st, f'post#{k}', s.spec_eval(post, st, 1), line, 'post', extra=extra)
         s.frame_obligations(st, line, 'ret')
 
     def frame_obligations(s, st, line, tag):
@@ -1654,7 +1687,7 @@ class VCGen:
             a.pc.append(Not(s.truthy(c, tc, a)))
         for k, h in enumerate(sp.get('hint_exit', [])):
             s.hint(a, h, f'hint-exit#L{ordn}.{k}', n.lineno)
-        for u in sp.get('use_exit', []):
+        for u in sp.get('use_exit', []) + s.cur.get('after_loop_use', {}).get(ordn, []):
             s.use_lemma(a, u)
         # variables first bound inside the loop may be unbound after it
         for v in names:
